@@ -57,7 +57,9 @@ def case_product(I, slf, result, pt, max_cases=81):
     parameters.  Returns [(label, [conds])]."""
     info = collect_leaves(slf)
     if isinstance(result, Obj):
+        own_ints = list(info["ints"])
         collect_leaves(result, info, set())
+        info["ints"] = own_ints        # parameters of the result are functions of the input's
     dims = []
     seen = set()
     for name, n in info["ints"]:
@@ -137,4 +139,209 @@ def specs(prog, tier):
     for cls, k, label, bnd in class_variants(prog, tier):
         for rule in reducers_of(cls):
             out.append(fam_reducer(cls, rule, k, label, bnd))
+    return out
+
+
+# ---------------------------------------------------------------------------- drivers
+
+def result_refines(I, res, emit, slf, pt, what, split=False):
+    if res.outcome[0] == "raise":
+        emit("no-exception", ["C08", "C17"], z3.BoolVal(False), info=f"{H.exc_kind(res.outcome[1])} at {res.outcome[2]}")
+        return None
+    r = res.outcome[1]
+    if not isinstance(r, Obj) or not (r.cls is None or r.cls.name in sym.CLS):
+        emit("returns-expression", ["C08", "C17"], z3.BoolVal(False), info=repr(r))
+        return None
+    refines_obligations(I, res, emit, slf, r, pt, split=split, clause=what)
+    return r
+
+
+def fam_take_reduction_step(cls, arity, label, bounded):
+    def run(prog, tier):
+        fd = cls.lookup("_take_reduction_step")
+
+        def setup(I):
+            pt = H.make_point(I)
+            I.ghost["ambient_names"] = []
+            slf = H.make_self(I, cls, arity)
+            I.ghost["self"], I.ghost["pt"] = slf, pt
+            I.ghost["replay"] = {"kind": "method_refines", "root": slf, "pt": pt, "x": z3.Const("x", sym.Name),
+                                 "extra": {"rule": "_take_reduction_step"}}
+            return lambda: I.call_funcdef(fd, [slf], {})
+
+        def post(I, res, emit):
+            slf, pt = I.ghost["self"], I.ghost["pt"]
+            r = result_refines(I, res, emit, slf, pt, "step-refines")
+            # C09 P4: the flag is only ever set on a rule-free node
+            fl = slf.fields.get("_is_fully_reduced")
+            if fl is True:
+                declined = {c[0] for c in I.call_log if len(c) == 3 and c[2] == "declined"}
+                fired = [c for c in I.call_log if len(c) == 3 and c[2] == "fired"]
+                rules = set(reducers_of(cls))
+                ok = (not fired) and rules <= declined
+                if cls.name not in ("Constant", "Variable"):
+                    emit("flag-set=>no-rule-applies", ["C09", "C08"], z3.BoolVal(bool(ok)),
+                         info=f"declined={sorted(declined)} fired={fired}")
+                    kids = spec.children(slf)
+                    emit("flag-set=>children-flagged", ["C09"],
+                         sym.conj([k.ghost["fully_reduced"] if k.cls is None or k.kind == "child" else z3.BoolVal(True) for k in kids]))
+        return H.run_family(prog, f"{label}._take_reduction_step", setup, post, bounded=bounded,
+                            force_contract=("_reduce_*", "_consolidate_expression_lacking_variables"))
+    return FamilySpec(f"{label}._take_reduction_step", ["C08", "C09", "C17", "C05"], run,
+                      functions=[f"{cls.name}._take_reduction_step", f"{cls.name}._rebuild", f"{cls.name}._reducers"])
+
+
+def fam_consolidate(cls, arity, label, bounded):
+    def run(prog, tier):
+        fd = prog.classes["Expression"].methods["_consolidate_expression_lacking_variables"]
+
+        def setup(I):
+            pt = H.make_point(I)
+            I.ghost["ambient_names"] = []
+            slf = H.make_self(I, cls, arity)
+            I.ghost["self"], I.ghost["pt"] = slf, pt
+            I.ghost["ef0"] = slf.fields["_evaluation_failed"]
+            I.ghost["replay"] = {"kind": "method_refines", "root": slf, "pt": pt, "x": z3.Const("x", sym.Name),
+                                 "extra": {"rule": "_consolidate_expression_lacking_variables"}}
+            return lambda: I.call_funcdef(fd, [slf], {})
+
+        def post(I, res, emit):
+            slf, pt = I.ghost["self"], I.ghost["pt"]
+            if res.outcome[0] == "raise":
+                emit("no-exception", ["C08", "C17"], z3.BoolVal(False), info=f"{H.exc_kind(res.outcome[1])} at {res.outcome[2]}")
+                return
+            r = res.outcome[1]
+            d = spec.den(I, slf, pt)
+            if r is None:
+                emit("declines", ["C08"], z3.BoolVal(True))
+                # C09 P4: the failure flag is stored only for a variable-free expression
+                # that is undefined (at every point)
+                ef = slf.fields["_evaluation_failed"]
+                if ef is True:
+                    emit("failure-flag=>variable-free-and-undefined", ["C09"],
+                         z3.And(spec.vars_of(I, slf) == sym.empty_set(), z3.Not(d.D)))
+                return
+            if not (isinstance(r, Obj) and r.cls is not None and r.cls.name == "Constant"):
+                emit("returns-Constant-or-None", ["C08"], z3.BoolVal(False), info=repr(r))
+                return
+            emit("folded=>variable-free", ["C08"], spec.vars_of(I, slf) == sym.empty_set())
+            emit("folded=>defined-with-that-value", ["C08"], z3.And(d.D, d.V == real_term(r.fields["value"])))
+        return H.run_family(prog, f"{label}._consolidate_expression_lacking_variables", setup, post, bounded=bounded,
+                            force_contract=("at",))
+    return FamilySpec(f"{label}._consolidate_expression_lacking_variables", ["C08", "C09", "C17", "C14"], run,
+                      functions=["Expression._consolidate_expression_lacking_variables"])
+
+
+def fam_normalize_fully_reduced(cls, arity, label, bounded):
+    def run(prog, tier):
+        fd = cls.lookup("_normalize_fully_reduced")
+
+        def setup(I):
+            pt = H.make_point(I)
+            I.ghost["ambient_names"] = []
+            slf = H.make_self(I, cls, arity)
+            I.ghost["self"], I.ghost["pt"] = slf, pt
+            I.ghost["replay"] = {"kind": "method_refines", "root": slf, "pt": pt, "x": z3.Const("x", sym.Name),
+                                 "extra": {"rule": "_normalize_fully_reduced"}}
+            return lambda: I.call_funcdef(fd, [slf], {})
+
+        def post(I, res, emit):
+            slf, pt = I.ghost["self"], I.ghost["pt"]
+            result_refines(I, res, emit, slf, pt, "normal-form-refines", split=True)
+        return H.run_family(prog, f"{label}._normalize_fully_reduced", setup, post, bounded=bounded,
+                            force_contract=("_normalize",))
+    return FamilySpec(f"{label}._normalize_fully_reduced", ["C08", "C17", "C05"], run,
+                      functions=[f"{cls.name}._normalize_fully_reduced"])
+
+
+def fam_normalize():
+    def run(prog, tier):
+        def setup(I):
+            pt = H.make_point(I)
+            I.ghost["ambient_names"] = []
+            e = I.contracts.make_child(I, "e")
+            I.ghost["e"], I.ghost["pt"] = e, pt
+            fd = prog.classes["Expression"].methods["_normalize"]
+            return lambda: I.call_funcdef(fd, [e], {})
+
+        def post(I, res, emit):
+            result_refines(I, res, emit, I.ghost["e"], I.ghost["pt"], "normalize-refines")
+        return H.run_family(prog, "Expression._normalize", setup, post,
+                            force_contract=("_fully_reduce", "_normalize_fully_reduced"))
+    return FamilySpec("Expression._normalize", ["C08", "C17", "C05"], run, functions=["Expression._normalize"])
+
+
+def fam_fully_reduce(part):
+    """Expression._fully_reduce, loop invariant `expression refines self` (sidecar, loop
+    ordinal 0): initially / preserved by one iteration (also on its early-return exit) /
+    gives the post-condition on the budget-exhausted exit."""
+    def run(prog, tier):
+        fd = prog.classes["Expression"].methods["_fully_reduce"]
+        body = [s for s in fd.node.body if not (isinstance(s, ast.Expr) and isinstance(s.value, ast.Constant))]
+        loops = [i for i, s in enumerate(body) if isinstance(s, ast.For)]
+        if len(loops) != 1:
+            fam = H.Family(f"Expression._fully_reduce[{part}]")
+            fam.error = "unsupported: expected exactly one loop in _fully_reduce"
+            return fam
+        li = loops[0]
+        loop = body[li]
+
+        def setup(I):
+            pt = H.make_point(I)
+            I.ghost["ambient_names"] = []
+            e = I.contracts.make_child(I, "e")
+            I.ghost["e"], I.ghost["pt"] = e, pt
+            env = Env(fd.module, None, fd, 1)
+            env.vars["self"] = e
+            I.frames.append(env)
+
+            def arbitrary_state():
+                x0 = I.contracts.make_child(I, "expression0")
+                I.contracts.assume_refines(I, e, x0)
+                env.vars["expression"] = x0
+                env.vars[loop.target.id] = SNum(z3.Int("iteration"), True)
+
+            def thunk():
+                try:
+                    if part == "init":
+                        I.exec_block(body[:li], env)
+                        return ("inv", env.vars.get("expression"))
+                    if part == "step":
+                        arbitrary_state()
+                        I.exec_block(loop.body, env)
+                        return ("inv", env.vars.get("expression"))
+                    arbitrary_state()
+                    I.exec_block(body[li + 1:], env)
+                    return ("fallthrough", None)
+                except _Return as r:
+                    return ("return", r.value)
+            return thunk
+
+        def post(I, res, emit):
+            e, pt = I.ghost["e"], I.ghost["pt"]
+            if res.outcome[0] == "raise":
+                emit("no-exception", ["C08", "C17"], z3.BoolVal(False), info=H.exc_kind(res.outcome[1]))
+                return
+            kind, val = res.outcome[1]
+            if kind == "fallthrough" or not isinstance(val, Obj):
+                emit("returns-expression", ["C08"], z3.BoolVal(False), info=f"{kind} {val!r}")
+                return
+            clause = "invariant-holds" if kind == "inv" else "returned-expression-refines-self"
+            refines_obligations(I, res, emit, e, val, pt, split=False, clause=f"{part}:{clause}")
+        return H.run_family(prog, f"Expression._fully_reduce[{part}]", setup, post)
+    return FamilySpec(f"Expression._fully_reduce[{part}]", ["C08", "C17", "C05"], run, functions=["Expression._fully_reduce"])
+
+
+_base_specs = specs
+
+
+def specs(prog, tier):                                        # noqa: F811
+    out = _base_specs(prog, tier)
+    for cls, k, label, bnd in class_variants(prog, tier):
+        out.append(fam_take_reduction_step(cls, k, label, bnd))
+        out.append(fam_consolidate(cls, k, label, bnd))
+        out.append(fam_normalize_fully_reduced(cls, k, label, bnd))
+    out.append(fam_normalize())
+    for part in ("init", "step", "exit"):
+        out.append(fam_fully_reduce(part))
     return out
